@@ -21,6 +21,7 @@ use vcore::Ctx;
 fn main() {
     // a stack overflow / abort in the code under test must become a verdict, not a dead check
     vcore::supervise("C16");
+    vcore::install_log_evaluation(); // logging is part of the environment: log arguments are evaluated as under a real subscriber
     let ctx = Ctx::from_args("C16", "model_checking");
 
     if let Some((_key, case)) = ctx.replay_case() {
